@@ -224,10 +224,13 @@ func minimalDoc(kind, fl string) obj {
 	return obj{}
 }
 
-var specialKeys = []string{"quo\"te", "back\\slash", "new\nline", "tab\there", "unié中", "sl/ash", "til~de", "per%cent", "sp ace", "dollar$", "{brace}", "ctl\u0001"}
+var specialKeys = []string{"a~1b", "c~0d", "quo\"te", "back\\slash", "new\nline", "tab\there", "unié中", "sl/ash", "til~de", "per%cent", "sp ace", "dollar$", "{brace}", "ctl\u0001"}
 
 func mapKey(i int, kind string) string {
 	if kind == "pathItem" {
+		if codecFlags.names == "special" {
+			return "/" + specialKeys[(i+codecCounter)%len(specialKeys)] + strconv.Itoa(i)
+		}
 		return "/p" + strconv.Itoa(i)
 	}
 	if codecFlags.names == "special" {
@@ -382,6 +385,12 @@ func valueFor(name, vt, cls string, wild bool) interface{} {
 			return "#/a~2b/~"
 		case "onlyquery":
 			return "?q=1"
+		case "urnbackslash":
+			return "urn:example:dir\\table"
+		case "queryquote":
+			return "x.json?v=a\"b\\u0041"
+		case "urnplain":
+			return "urn:example:thing"
 		case "longfrag":
 			return "x.json#/definitions/" + strings.Repeat("a/", 300)
 		}
@@ -827,6 +836,8 @@ func runCodec(id int, c codecCase) (o *codecObs) {
 		t4 := newOf(top)
 		if err := gob.NewEncoder(&buf).Encode(target); err != nil {
 			o.Gob, o.GobDiff = "error", ascii("encode: "+err.Error())
+		} else if after, _ := json.Marshal(target); !bytes.Equal(after, n1) {
+			o.Gob, o.GobDiff = "diff", ascii("gob-encoding changed the value that was encoded: "+trim(string(after), 300))
 		} else if err := gob.NewDecoder(&buf).Decode(t4); err != nil {
 			o.Gob, o.GobDiff = "error", ascii("decode: "+err.Error())
 		} else if g1, err := json.Marshal(t4); err != nil {
